@@ -1,13 +1,24 @@
 #!/bin/bash
 # tools/try_patch.sh <patch.diff> <ID> [<ID> ...] [-- extra check args]
-# Applies a patch to /repo, runs the given checks (no evidence written), and always restores /repo.
+# Applies a patch to a scratch worktree of /repo (HEAD), runs the given checks against it (PV_REPO, no evidence written)
+# and removes the worktree.  With TRY_IN_REPO=1 the patch is applied to /repo itself instead and undone afterwards
+# (git -C /repo apply ... ; git -C /repo checkout -- .), which is what the checks see when they are used for real.
 patch="$(realpath "$1")"; shift
 ids=(); extra=()
 while [ $# -gt 0 ]; do if [ "$1" == "--" ]; then shift; extra=("$@"); break; fi; ids+=("$1"); shift; done
-cd /repo || exit 2
-if [ -n "$(git status --porcelain --untracked-files=no)" ]; then echo "/repo is dirty, refusing"; exit 2; fi
-git apply "$patch" || { echo "patch does not apply"; exit 2; }
-trap 'git -C /repo checkout -- . ' EXIT
+if [ -n "$TRY_IN_REPO" ]; then
+  cd /repo || exit 2
+  if [ -n "$(git status --porcelain --untracked-files=no)" ]; then echo "/repo is dirty, refusing"; exit 2; fi
+  git apply "$patch" || { echo "patch does not apply"; exit 2; }
+  trap 'git -C /repo checkout -- . ' EXIT
+  export PV_REPO=/repo
+else
+  wt=$(mktemp -d /tmp/trypatch_XXXXXX); rmdir "$wt"
+  git -C /repo worktree add -q "$wt" HEAD || exit 2
+  trap 'git -C /repo worktree remove --force "$wt" >/dev/null 2>&1' EXIT
+  git -C "$wt" apply "$patch" || { echo "patch does not apply"; exit 2; }
+  export PV_REPO="$wt"
+fi
 for id in "${ids[@]}"; do
   out=$(cd /verif && ./check "$id" --no-evidence "${extra[@]}" 2>&1); rc=$?
   echo "== $id rc=$rc $(echo "$out" | grep -c '^VIOLATION') VIOLATION lines"
